@@ -276,6 +276,10 @@ class IPCServer(IPCBase):
                 self.sock.settimeout(timeout)
 
     def __enter__(self) -> IPCServer:
+        # Framing state belongs to a single connection; don't let leftovers from
+        # a client that disconnected mid-frame corrupt the next request.
+        self.buffer = bytearray()
+        self.message_size = None
         if sys.platform == "win32":
             # NOTE: It is theoretically possible that this will hang forever if the
             # client never connects, though this can be "solved" by killing the server
